@@ -2,6 +2,8 @@
 -- Winter/Model/Protocol.lean; end-to-end `run` lines are not modelled (answer `-`)
 import Winter.Drv.Util
 import Winter.Model.Protocol
+import Winter.Gen.ProofOpts
+import Winter.Gen.FriOpts
 
 namespace Drv.C01
 open Model.Protocol
@@ -19,6 +21,22 @@ def degrees? (s : String) : Option (List Degree) :=
 def glueLine (g : Glue) : String :=
   s!"{g.ceBlowup} {g.ceDomain} {g.ldeDomain} {g.columns} {g.tracePolyDegree} {g.layers} {g.remDomain} {g.remCoef} {boolStr g.wellFormed} {boolStr g.queriesOk}"
 
+/-- translation validation of tie T: the definitions regenerated from the Rust sources on this run are
+    evaluated on the same operands as the model; a difference is appended to the model's answer and so shows
+    up as a disagreement with the compiled code -/
+def genDiff (n : Nat) (o : Options) (x : Nat) (r : Res Glue) : String :=
+  let accG := Gen.ProofOpts.new_ok o.queries o.blowup o.grinding x o.folding o.remainder
+  let d1 := if accG == o.accepted then "" else s!" gen:new_ok={boolStr accG}"
+  match r with
+  | .panic => d1
+  | .ok gl =>
+    let lde := n * o.blowup
+    let fo := Gen.ProofOpts.to_fri_options o.blowup o.folding o.remainder
+    let layG := if Gen.ProofOpts.to_fri_options_ok o.blowup o.folding o.remainder
+        && Gen.FriOpts.num_fri_layers_ok 64 fo.2.2 fo.1 fo.2.1 lde
+      then toString (Gen.FriOpts.num_fri_layers 64 fo.2.2 fo.1 fo.2.1 lde) else "panic"
+    d1 ++ (if layG == toString gl.layers then "" else s!" gen:layers={layG}")
+
 def handle (toks : List String) : String :=
   match toks with
   | "run" :: _ => "-"
@@ -29,9 +47,11 @@ def handle (toks : List String) : String :=
       else if [n, q, b, g, x, f, r, e, mw, aw, nr].any (· > 2 ^ 24)
            ∨ (md ++ ad).any (fun d => d.base > 2 ^ 16 ∨ d.cycles.any (· > 2 ^ 24)) then "bad-op"
       else
-        match glue n { queries := q, blowup := b, grinding := g, folding := f, remainder := r } e mw aw nr md ad with
+        let o : Options := { queries := q, blowup := b, grinding := g, folding := f, remainder := r }
+        let res := glue n o e mw aw nr md ad
+        (match res with
         | .ok gl => glueLine gl
-        | .panic => "panic"
+        | .panic => "panic") ++ genDiff n o x res
     | _, _, _ => "bad-op"
   | _ => "bad-op"
 
